@@ -1,8 +1,10 @@
 //verif:package github.com/kstenerud/go-concise-encoding/internal/verifh/c01
-//verif:bounds scalars: every payload bit symbolic; one value per slot; positions: top level, list, map key, map value
+//verif:bounds every payload bit symbolic; one value per slot; positions: top level, list, map key, map value; typed arrays (uint8, uint16, int32, float64, UID) of 0..2 elements (byte arrays 0,1,15,16,17) whole and in 2 chunks at every boundary; strings/resource ids of 0,1,2,15,16 ASCII bytes whole/array/chunked; markers+references, record types+records, nodes, edges, media, custom binary, UID, NaN, decimal floats (32-bit coefficient*10+digit)
+//verif:assume big.Int/big.Float/apd.Decimal payloads, times, comments/padding and nesting deeper than 2 are not generated yet
 package c01
 
 import (
+	compact_float "github.com/kstenerud/go-compact-float"
 	"math"
 
 	"github.com/kstenerud/go-concise-encoding/cbe"
@@ -142,4 +144,266 @@ func Verif_C01_Float() {
 		return
 	}
 	verifrt.Assert(g.K == verifh.KFloat && g.U == bits, "binary float is bit-exact")
+}
+
+// ---- arrays, strings, identifiers -------------------------------------------
+
+func sameEvent(s, g verifh.Ev) bool {
+	// integers are equal by value, whatever event form carries them
+	okS, negS, magS := verifh.IntValue(s)
+	okG, negG, magG := verifh.IntValue(g)
+	if okS || okG {
+		return verifrt.And(okS, okG, magS == magG, verifrt.Or(negS == negG, magS == 0))
+	}
+	return verifrt.And(s.K == g.K, s.U == g.U, s.U2 == g.U2, s.B == g.B, verifrt.BytesEq(s.S, g.S), verifrt.BytesEq(s.S2, g.S2))
+}
+
+// normalizeArrays merges every (ArrayBegin, chunk/data...) run and every whole
+// array event into one KArray event (type, element count, concatenated bytes):
+// CBE may re-chunk, so streams are compared after this normalisation.
+func normalizeArrays(in []verifh.Ev) []verifh.Ev {
+	var out []verifh.Ev
+	for i := 0; i < len(in); i++ {
+		e := in[i]
+		switch e.K {
+		case verifh.KStringArray:
+			out = append(out, verifh.Ev{K: verifh.KArray, U: e.U, U2: uint64(len(e.S)), S: e.S})
+		case verifh.KArrayBegin:
+			acc := verifh.Ev{K: verifh.KArray, U: e.U}
+			for i+1 < len(in) && (in[i+1].K == verifh.KArrayChunk || in[i+1].K == verifh.KArrayData) {
+				i++
+				if in[i].K == verifh.KArrayChunk {
+					acc.U2 += in[i].U
+				} else {
+					acc.S = append(acc.S, in[i].S...)
+				}
+			}
+			out = append(out, acc)
+		default:
+			out = append(out, e)
+		}
+	}
+	return out
+}
+
+func assertSameStream(sent, got *verifh.Rec) {
+	s, g := normalizeArrays(sent.Evs), normalizeArrays(got.Evs)
+	verifrt.Assert(len(s) == len(g), "same number of events after array normalisation")
+	if len(s) != len(g) {
+		return
+	}
+	ok := true
+	for i := range s {
+		ok = verifrt.And(ok, sameEvent(s[i], g[i]))
+	}
+	verifrt.Assert(ok, "decoded stream equals the sent stream")
+}
+
+var arrayKinds = []events.ArrayType{events.ArrayTypeUint8, events.ArrayTypeUint16, events.ArrayTypeInt32, events.ArrayTypeFloat64, events.ArrayTypeUID}
+var arrayWidths = []int{1, 2, 4, 8, 16}
+
+// Typed arrays, whole and chunked at every element boundary, around the
+// short-form limit (15 elements) for byte arrays.
+func Verif_C01_TypedArrays() {
+	ki := verifrt.Choice("kind", len(arrayKinds))
+	at, w := arrayKinds[ki], arrayWidths[ki]
+	var n int
+	if w == 1 {
+		n = []int{0, 1, 15, 16, 17}[verifrt.Choice("elems", 5)]
+	} else {
+		n = verifrt.Choice("elems", 3)
+	}
+	data := verifrt.Bytes("d", n*w)
+	pos := verifrt.Choice("pos", 2)
+	if pos == 1 {
+		pos = 3 // arrays are not keyable: top level and map value
+	}
+	form := verifrt.Choice("form", 2)
+	sent, got, _, err := roundTrip(wrap(pos, func(r events.DataEventReceiver) {
+		if form == 0 {
+			r.OnArray(at, uint64(n), data)
+			return
+		}
+		c := verifrt.Choice("chunk", n+1)
+		r.OnArrayBegin(at)
+		r.OnArrayChunk(uint64(c), true)
+		if c > 0 {
+			r.OnArrayData(data[:c*w])
+		}
+		r.OnArrayChunk(uint64(n-c), false)
+		if n-c > 0 {
+			r.OnArrayData(data[c*w:])
+		}
+	}))
+	verifrt.Reach("decoded")
+	verifrt.Assert(err == nil, "encoder output decodes")
+	assertSameStream(sent, got)
+}
+
+func asciiBytes(tag string, n int) []byte {
+	b := verifrt.Bytes(tag, n)
+	for _, c := range b {
+		verifrt.Assume(c >= 0x20 && c < 0x7f)
+	}
+	return b
+}
+
+// Strings and resource ids in every position, lengths around the short-string limit.
+func Verif_C01_Strings() {
+	kind := verifrt.Choice("kind", 2)
+	at := []events.ArrayType{events.ArrayTypeString, events.ArrayTypeResourceID}[kind]
+	n := []int{0, 1, 2, 15, 16}[verifrt.Choice("len", 5)]
+	text := asciiBytes("s", n)
+	pos := []int{0, 2}[verifrt.Choice("pos", 2)] // top level and map key
+	if verifrt.Thorough() {
+		pos = verifrt.Choice("posT", 4)
+	}
+	form := verifrt.Choice("form", 3)
+	sent, got, _, err := roundTrip(wrap(pos, func(r events.DataEventReceiver) {
+		switch form {
+		case 0:
+			r.OnStringlikeArray(at, string(text))
+		case 1:
+			r.OnArray(at, uint64(n), text)
+		case 2:
+			c := verifrt.Choice("chunk", n+1)
+			r.OnArrayBegin(at)
+			r.OnArrayChunk(uint64(c), true)
+			if c > 0 {
+				r.OnArrayData(text[:c])
+			}
+			r.OnArrayChunk(uint64(n-c), false)
+			if n-c > 0 {
+				r.OnArrayData(text[c:])
+			}
+		}
+	}))
+	verifrt.Reach("decoded")
+	verifrt.Assert(err == nil, "encoder output decodes")
+	assertSameStream(sent, got)
+}
+
+func ident(tag string, n int) []byte {
+	b := verifrt.Bytes(tag, n)
+	for _, c := range b {
+		verifrt.Assume(verifrt.Or(verifrt.And(c >= 'a', c <= 'z'), verifrt.And(c >= '0', c <= '9'), c == '_'))
+	}
+	return b
+}
+
+// Markers, references, record types, records, nodes, edges, media, custom
+// binary, UID, decimal floats, NaN: structure and identifiers survive.
+func Verif_C01_Structures() {
+	structures(verifrt.Choice("which", 4))
+}
+
+func Verif_C01_MediaCustomUIDDecimal() {
+	structures(verifrt.Choice("which", 4) + 4)
+}
+
+func structures(which int) {
+	id := ident("id", verifrt.Choice("idlen", 2)+1)
+	v := verifrt.U64("v")
+	data := verifrt.Bytes("d", 3)
+	uid := verifrt.Bytes("uid", 16)
+	exp := verifrt.I32("exp")
+	// a coefficient without trailing decimal zeros (so that its minimal form is itself) and away from MinInt64
+	coef := int64(verifrt.I32("coefHigh"))*10 + int64(verifrt.Choice("coefLastDigit", 9)+1)
+	sent, got, _, err := roundTrip(func(r events.DataEventReceiver) {
+		r.OnBeginDocument()
+		r.OnVersion(0)
+		switch which {
+		case 0:
+			r.OnList()
+			r.OnMarker(id)
+			r.OnPositiveInt(v)
+			r.OnReferenceLocal(id)
+			r.OnEndContainer()
+		case 1:
+			r.OnRecordType(id)
+			r.OnPositiveInt(1)
+			r.OnStringlikeArray(events.ArrayTypeString, "k")
+			r.OnEndContainer()
+			r.OnRecord(id)
+			r.OnPositiveInt(v)
+			r.OnNull()
+			r.OnEndContainer()
+		case 2:
+			r.OnNode()
+			r.OnPositiveInt(v)
+			r.OnNode()
+			r.OnNull()
+			r.OnEndContainer()
+			r.OnTrue()
+			r.OnEndContainer()
+		case 3:
+			r.OnEdge()
+			r.OnPositiveInt(v)
+			r.OnNull()
+			r.OnStringlikeArray(events.ArrayTypeString, "dst")
+			r.OnEndContainer()
+		case 4:
+			r.OnMedia("text/x", data)
+		case 5:
+			r.OnCustomBinary(v&0xffffffff, data)
+		case 6:
+			r.OnMap()
+			r.OnUID(uid)
+			r.OnNan(v&1 == 1)
+			r.OnEndContainer()
+		case 7:
+			d := compact_float.DFloatValue(exp, coef)
+			verifrt.Assume(!d.IsSpecial())
+			r.OnList()
+			r.OnDecimalFloat(d)
+			r.OnEndContainer()
+		}
+		r.OnEndDocument()
+	})
+	verifrt.Reach("decoded")
+	verifrt.Assert(err == nil, "encoder output decodes")
+	if which == 4 {
+		// media may come back as begin/chunk/data events: compare type and payload
+		verifrt.Assert(len(got.Evs) >= 3, "media events present")
+		var payload []byte
+		var mt []byte
+		for _, e := range got.Evs {
+			switch e.K {
+			case verifh.KMedia:
+				mt, payload = e.S2, e.S
+			case verifh.KMediaBegin:
+				mt = e.S2
+			case verifh.KArrayData:
+				payload = append(payload, e.S...)
+			}
+		}
+		verifrt.Assert(verifrt.BytesEq(mt, []byte("text/x")), "media type survives")
+		verifrt.Assert(verifrt.BytesEq(payload, data), "media payload survives")
+		return
+	}
+	if which == 5 {
+		var payload []byte
+		ct := uint64(0)
+		for _, e := range got.Evs {
+			switch e.K {
+			case verifh.KCustomBinary:
+				ct, payload = e.U, e.S
+			case verifh.KCustomBegin:
+				ct = e.U2
+			case verifh.KArrayData:
+				payload = append(payload, e.S...)
+			}
+		}
+		verifrt.Assert(ct == v&0xffffffff, "custom type code survives")
+		verifrt.Assert(verifrt.BytesEq(payload, data), "custom binary payload survives")
+		return
+	}
+	if which == 7 {
+		g := got.Evs[3]
+		verifrt.Assert(g.K == verifh.KDecimalFloat, "decimal float comes back as a decimal float")
+		// equal by value: coefficient * 10^exponent; the encoder may not change either field here
+		verifrt.Assert(verifrt.And(g.U == uint64(coef), g.U2 == uint64(int64(exp))), "decimal float keeps coefficient and exponent")
+		return
+	}
+	assertSameStream(sent, got)
 }
